@@ -432,7 +432,13 @@ def run(step, calm=False):
                  if key != hostpos[a] and any(r == probe for _, r in lst)]
     # (discovery's own probes reach host ports too: count the probe only)
     got = [g for g in got if g == probe]
-    if got != [probe] or elsewhere:
+    if "l3_learning" in (cfg.get("apps") or ()):
+      # two forwarding applications answer the same packet-in: the frame may
+      # arrive more than once or elsewhere as well; it has to arrive
+      ok = len(got) >= 1
+    else:
+      ok = got == [probe] and not elsewhere
+    if not ok:
       fnd.add({"id": "C15-insitu-not-forwarding-afterwards",
                "op": "liveness", "exc": "NoDelivery", "file": "?",
                "func": "?", "line": 0,
